@@ -17,6 +17,10 @@ CHECKS = {
         'Generated-input search over grammars x inputs against an independent reference evaluator: ~4000 grammars x 6 inputs per quick run '
         '(derived sentences, near misses, token soup), any start rule, consumed length observed through a wrapper rule. Exploration.',
         REF_NOTE, 'DESIGN.md §3 C01, §2.3'),
+    'C02': (
+        'property-based differential testing: model.parse vs exec(to_python_sourcecode).Parser().parse on generated grammars x inputs x settings x semantics; ast.parse/compile validity check',
+        'Generated grammars (core language with cuts, directives incl. literal-tab regexes, rule parameters, @name+keywords, upper-case and keyword-like rule names, based rules, includes, tokens spelled None/True) x 5 inputs x 2 parse-time settings each, through the wrapper rule, start=<rule> and the default start; equal canonical AST/consumed length or both a parse failure; parseinfo triples compared. Exploration.',
+        'the model side is the reference (C01 judges it); failure class/position not compared; CodegenError refusals are skipped and counted', 'DESIGN.md §3 C02'),
     'C03': (
         'property-based testing: specification-first generation of layered left-recursive grammars; two independent oracles (precedence-climbing evaluator, RefPEG with seed growing) + model-vs-generated differential + termination watchdog; small-scope enumeration of all lexeme strings for 11 family grammars',
         'Generated precedence tables printed as grammars (direct, aliased either way with either name order, named, optional-prefixed left recursion; right-recursive and unary levels; parentheses) x generated operator/operand strings and near misses, parsed from every level and alias rule; TatSu is judged only where both oracles agree. Exploration with exhaustive sub-spaces (family grammars x all lexeme strings up to 5/7 lexemes).',
